@@ -55,7 +55,7 @@ type nameAlloc struct{ n int }
 // that is - . _ ~ @ ! $ & ' ( ) * + ; % = (the names "route" and "withOptional" collide with reserved words: D14).
 func (a *nameAlloc) next() string {
 	a.n++
-	return fmt.Sprintf([]string{"p%d", "p%d", "p%d", "user-id%d", "file.ext%d", "x_%d", "a*%d", "~t%d", "$v%d", "k=%d", "(g%d)", "q+%d;"}[(a.n*7+a.n/3)%12], a.n)
+	return fmt.Sprintf([]string{"p%d", "p%d", "p%d", "user-id%d", "file.ext%d", "x_%d", "a*%d", "~t%d", "$v%d", "k=%d", "(g%d)", "q+%d;", "rest%d...", "n%d.."}[(a.n*7+a.n/3)%14], a.n)
 }
 
 func pick(r *rand.Rand, s []string) string { return s[r.Intn(len(s))] }
@@ -389,7 +389,7 @@ func makeIllFormed(r *rand.Rand, rg routeGen, pool *[]segGen) aRoute {
 		segs = append([]aSeg{a1, a2}, segs...)
 	case 5: // expression that does not compile
 		// ... on its own: "a)(b" only compiles once it is wrapped in the parentheses of the bind
-		bad := pick(r, []string{"(", "a)(b", ")(", "a)|(b", "[a", "x{2,1}", "a)(b"})
+		bad := pick(r, []string{"(", "a)(b", ")(", "a)|(b", "[a", "x{2,1}", "a)(b", "?i", "?s", "?U", "?i-s", "*a", "+"})
 		segs = append(segs[:len(segs):len(segs)], aSeg{K: "R", T: "{bad: /" + bad + "/}", Binds: []string{"bad"}, Bad: true, Grp: true,
 			Els: []aEl{{Ty: "bind", V: "bad", G: 1, Re: bad}}})
 		if r.Intn(3) == 0 {
